@@ -52,13 +52,15 @@ pub fn run_engine_s_only(rep: &mut Report, thorough: bool, property: &str, only:
             std::process::exit(2);
         }
         // deadlocks / panics belong to C08, schedule-dependent results to C18
-        if only.is_none() && (property == "C18") != is_view {
+        // C08: deadlocks and panics; C18: everything that happens only under some schedule (also a panic)
+        let sequential = kind == "sequential-run-failed";
+        if only.is_none() && ((property == "C08" && is_view) || (property == "C18" && sequential)) {
             continue;
         }
         let msg: String = f["message"].as_str().unwrap_or("").split(" @ ").next().unwrap_or("").chars().take(50).collect();
         let sig = if only.is_some() {
             format!("{}:S:{}:{}/{}", property, kind, f["state"].as_str().unwrap_or("?"), f["op"].as_str().unwrap_or("?"))
-        } else if is_view {
+        } else if property == "C18" {
             format!("C18:S:result-depends-on-schedule:{}/{}", f["state"].as_str().unwrap_or("?"), f["op"].as_str().unwrap_or("?"))
         } else {
             format!("C08:S:{}:{}", if msg.to_lowercase().contains("deadlock") { "deadlock".to_string() } else { format!("panic:{}", msg) }, f["op"].as_str().unwrap_or("?"))
